@@ -191,6 +191,19 @@ func writeAttr(b *bolt.Bucket, attr *metadata.Attr) error {
 			if err := b.Put(v.key, val); err != nil {
 				return err
 			}
+		} else if err := b.Delete(v.key); err != nil { // the bucket may hold an older entry of this node
+			return err
+		}
+	}
+	for _, key := range [][]byte{bucketKeyModTime, bucketKeyLinkName, bucketKeyMode, bucketKeyXattrKey, bucketKeyXattrValue} {
+		// Overwrite, don't merge: a repeated TOC entry of a directory replaces the former one.
+		if err := b.Delete(key); err != nil {
+			return err
+		}
+	}
+	if b.Bucket(bucketKeyXattrsExtra) != nil {
+		if err := b.DeleteBucket(bucketKeyXattrsExtra); err != nil {
+			return err
 		}
 	}
 	if !attr.ModTime.IsZero() {
@@ -235,12 +248,6 @@ func writeAttr(b *bolt.Bucket, attr *metadata.Attr) error {
 				continue
 			}
 			if xbkt == nil {
-				if xbkt := b.Bucket(bucketKeyXattrsExtra); xbkt != nil {
-					// Reset
-					if err := b.DeleteBucket(bucketKeyXattrsExtra); err != nil {
-						return err
-					}
-				}
 				var err error
 				xbkt, err = b.CreateBucket(bucketKeyXattrsExtra)
 				if err != nil {
